@@ -322,7 +322,8 @@ func (tf *typeFormatter) formatEnumValue(obj ast.Object, val any) string {
 }
 
 func (tf *typeFormatter) objectNeedsCustomSerializer(obj ast.Object) bool {
-	if !tf.config.GenerateBuilders || tf.config.SkipRuntime {
+	// the serializers are only generated with the JSON marshallers
+	if !tf.config.GenerateJSONMarshaller || !tf.config.GenerateBuilders || tf.config.SkipRuntime {
 		return false
 	}
 	if obj.Type.HasHint(ast.HintDisjunctionOfScalars) {
@@ -334,7 +335,8 @@ func (tf *typeFormatter) objectNeedsCustomSerializer(obj ast.Object) bool {
 }
 
 func (tf *typeFormatter) objectNeedsCustomDeserializer(obj ast.Object) bool {
-	if !tf.config.GenerateBuilders || tf.config.SkipRuntime {
+	// the deserializers are only generated with the JSON marshallers
+	if !tf.config.GenerateJSONMarshaller || !tf.config.GenerateBuilders || tf.config.SkipRuntime {
 		return false
 	}
 	if objectNeedsCustomDeserialiser(tf.context, obj) {
